@@ -5,6 +5,7 @@ use crate::engine::{bfs, sweep, SeqSpec};
 use crate::oracle::civil::*;
 use crate::oracle::dur::*;
 use crate::oracle::leap::LeapTable;
+use crate::oracle::scales;
 use crate::report::{guard, Local, Report};
 use hifitime::{Epoch, TimeScale, Unit, Weekday};
 
@@ -55,16 +56,38 @@ fn todclass(tod: i128) -> &'static str {
     }
 }
 
+/// count in `ts` of the instant whose civil date-time in `ts` itself is (days since 1900-01-01, ns of day)
+pub fn own_count(days: i64, tod: i128, ts: TimeScale) -> i128 {
+    let (zd, zt) = scales::gregorian_zero(ts);
+    (days - zd) as i128 * NS_DAY + tod - zt
+}
+
+/// TAI count of (ts, c) as an interval [lo, hi]: exact for the uniform scales and UTC; for ET/TDB the periodic term
+/// (|.| < 2 ms) is left open
+pub fn tai_bounds(c: i128, ts: TimeScale, leap: &LeapTable) -> (i128, i128) {
+    match scales::to_tai(c, ts, leap) {
+        Some(t) => (t, t),
+        None => {
+            let t = c + crate::lattice::J2000_TAI - 32_184_000_000;
+            (t - 2_000_000, t + 2_000_000)
+        }
+    }
+}
+
 /// weekday of the civil date, TAI (default accessor) and UTC
 pub fn j_weekday(days: i64, tod: i128, ts: TimeScale, leap: &LeapTable, out: &mut Local) {
-    // the epoch is given in `ts` (TAI or UTC) at civil (days, tod) of that scale
-    let c = days as i128 * NS_DAY + tod;
+    // the epoch is given in `ts` at civil (days, tod) of that scale
+    let c = own_count(days, tod, ts);
     let e = Epoch::from_duration(mk(c), ts);
     let args = vec![days.to_string(), enc(tod), scale_name(ts).to_string()];
-    let (tai, utc) = match ts {
-        TimeScale::TAI => (c, leap.tai_to_utc(c)),
-        _ => (leap.utc_to_tai(c), Some(c)),
-    };
+    let (lo, hi) = tai_bounds(c, ts, leap);
+    let (ulo, uhi) = (leap.tai_to_utc(lo), leap.tai_to_utc(hi));
+    if lo.div_euclid(NS_DAY) != hi.div_euclid(NS_DAY) || (lo != hi && (ulo.is_none() || uhi.is_none() || ulo.map(|u| u.div_euclid(NS_DAY)) != uhi.map(|u| u.div_euclid(NS_DAY)))) {
+        // ET/TDB within 2 ms of a TAI or UTC midnight: the model leaves the periodic term open
+        out.dc(0);
+        return;
+    }
+    let (tai, utc) = (lo, ulo);
     let want_tai = tai.div_euclid(NS_DAY).rem_euclid(7) as i64;
     let want_utc = utc.map(|u| u.div_euclid(NS_DAY).rem_euclid(7) as i64);
     assert_eq!(weekday1900(tai.div_euclid(NS_DAY) as i64), want_tai);
@@ -94,16 +117,14 @@ fn text_wd(i: i64) -> String {
 
 /// next / previous: nearest strictly later / earlier epoch on the weekday at the same time of day
 pub fn j_next(dir: usize, days: i64, tod: i128, ts: TimeScale, target: usize, leap: &LeapTable, out: &mut Local) -> Option<i128> {
-    let c = days as i128 * NS_DAY + tod;
+    let c = own_count(days, tod, ts);
     let e = Epoch::from_duration(mk(c), ts);
     let args = vec![dir.to_string(), days.to_string(), enc(tod), scale_name(ts).to_string(), target.to_string()];
     // where TAI and own-scale civil dates differ the statement does not say in which scale the weekday is read
-    if ts == TimeScale::UTC {
-        let tai = leap.utc_to_tai(c);
-        if tai.div_euclid(NS_DAY) != c.div_euclid(NS_DAY) {
-            out.dc(0);
-            return None;
-        }
+    let (lo, hi) = tai_bounds(c, ts, leap);
+    if lo.div_euclid(NS_DAY) != days as i128 || hi.div_euclid(NS_DAY) != days as i128 {
+        out.dc(0);
+        return None;
     }
     let cur = days.rem_euclid(7);
     let k = if dir == 0 { (target as i64 - cur).rem_euclid(7) } else { (cur - target as i64).rem_euclid(7) };
@@ -136,13 +157,16 @@ pub fn j_next(dir: usize, days: i64, tod: i128, ts: TimeScale, target: usize, le
 
 /// next_weekday_at_midnight / _at_noon, previous_weekday_at_midnight / _at_noon (after the reference epoch)
 pub fn j_at(variant: usize, days: i64, tod: i128, ts: TimeScale, target: usize, leap: &LeapTable, out: &mut Local) {
-    let c = days as i128 * NS_DAY + tod;
+    let c = own_count(days, tod, ts);
     let args = vec![variant.to_string(), days.to_string(), enc(tod), scale_name(ts).to_string(), target.to_string()];
-    if c < 0 {
-        out.dc(0); // the statement does not describe these variants; judged only where "the day" of the count is its civil day
+    if c < 0 || scales::gregorian_zero(ts).1 != 0 {
+        // the statement does not describe these variants; judged only where "the day" of the count is its civil day
+        // (non-negative counts of scales whose zero is a midnight)
+        out.dc(0);
         return;
     }
-    if ts == TimeScale::UTC && leap.utc_to_tai(c).div_euclid(NS_DAY) != c.div_euclid(NS_DAY) {
+    let (lo, hi) = tai_bounds(c, ts, leap);
+    if lo.div_euclid(NS_DAY) != days as i128 || hi.div_euclid(NS_DAY) != days as i128 {
         out.dc(0);
         return;
     }
@@ -156,7 +180,11 @@ pub fn j_at(variant: usize, days: i64, tod: i128, ts: TimeScale, target: usize, 
         out.dc(0);
         return;
     }
-    let want = day as i128 * NS_DAY + if variant % 2 == 0 { 0 } else { 12 * 3600 * NS_S };
+    if own_count(day, 0, ts) < 0 {
+        out.dc(0);
+        return;
+    }
+    let want = own_count(day, if variant % 2 == 0 { 0 } else { 12 * 3600 * NS_S }, ts);
     let r = guard(|| match variant {
         0 => e.next_weekday_at_midnight(WD[target]),
         1 => e.next_weekday_at_noon(WD[target]),
@@ -207,7 +235,7 @@ impl SeqSpec for Chain {
 pub fn run(rep: &mut Report) {
     let q = rep.quick();
     let leap = LeapTable::load().expect("leap").0;
-    rep.rule = "weekday algebra: complete (7 weekdays x 256 integers for +u8 -u8 += -= From<u8> From<i8>, all 49 pairs for + and -); epoch part: calendar lattice (as C08) x day-boundary times of day, given as TAI and as UTC epochs, through weekday / weekday_utc / weekday_in_time_scale; next / previous for all 7 targets on every 7th day plus all leap-second days; the four _at_midnight/_at_noon variants after the reference epoch; stateright BFS over chains of next/previous. Oracle: (days since 1900-01-01) mod 7, 1900-01-01 a Monday. Non-trivial = first/last microsecond of a day, before 1900, k = 7.".into();
+    rep.rule = "weekday algebra: complete (7 weekdays x 256 integers for +u8 -u8 += -= From<u8> From<i8>, all 49 pairs for + and -); epoch part: calendar lattice (as C08) x day-boundary times of day, given as epochs of every one of the 9 scales (own-scale civil date-time), through weekday / weekday_utc / weekday_in_time_scale; next / previous for all 7 targets on every 7th day plus all leap-second days; the four _at_midnight/_at_noon variants after the reference epoch; stateright BFS over chains of next/previous. Oracle: (days since 1900-01-01) mod 7, 1900-01-01 a Monday. Non-trivial = first/last microsecond of a day, before 1900, k = 7.".into();
     rep.assumptions = vec!["UTC-scale traces whose TAI and UTC civil dates differ (the 10..37 s before UTC midnight) are don't-cares for next/previous: the statement does not say in which scale the weekday is read".into()];
     sweep(rep, "c16.algebra", 9 * 7 * 256, |i, out| j_algebra(i / (7 * 256), (i / 256) % 7, i % 256, out));
     let days = cal_days(q);
@@ -215,8 +243,11 @@ pub fn run(rep: &mut Report) {
     let (nd, nt) = (days.len() as u64, tods.len() as u64 + 1);
     rep.bound("calendar_days", nd);
     rep.bound("times_of_day", nt);
-    for ts in [TimeScale::TAI, TimeScale::UTC] {
-        sweep(rep, &format!("c16.weekday[{}]", scale_name(ts)), nd * nt, |i, out| {
+    for ts in SCALES {
+        // every scale in the thorough tier; quick: TAI and UTC on the full calendar lattice, the others on every 16th day
+        let stride: u64 = if q && ts != TimeScale::TAI && ts != TimeScale::UTC { 16 } else { 1 };
+        sweep(rep, &format!("c16.weekday[{}]", scale_name(ts)), nd / stride * nt, |i, out| {
+            let i = (i / nt) * stride * nt + i % nt;
             let di = (i / nt) as usize;
             let k = (i % nt) as usize;
             let tod = if k < tods.len() { tods[k] } else { rolling_tod(days[di]) };
@@ -231,7 +262,7 @@ pub fn run(rep: &mut Report) {
     nd_days.dedup();
     let ntods = [TOD[0], TOD[1], TOD[4], NS_DAY - 38 * NS_S, TOD[7]];
     let n = nd_days.len() as u64;
-    for ts in [TimeScale::TAI, TimeScale::UTC] {
+    for ts in SCALES {
         sweep(rep, &format!("c16.next+previous[{}]", scale_name(ts)), n * 5 * 14, |i, out| {
             let a = i % 14;
             let j = i / 14;
